@@ -219,7 +219,7 @@ def rand_val(rng):
 FLAG_BITS = [0x1, 0x4, 0x10, 0x40, 0x80, 0x800]
 
 
-def make_state(rng, cand, d, rip, want_fault=None, force_T=None):
+def make_state(rng, cand, d, rip, want_fault=None, force_T=None, force_pair=None):
     """build the machine state around a decoded candidate; returns a case dict"""
     code = bytearray(cand.bytes[: int(d["len"], 16)])
     ln = len(code)
@@ -340,7 +340,9 @@ def make_state(rng, cand, d, rip, want_fault=None, force_T=None):
         for a in areas:
             if a[0] <= w < a[0] + a[1] - 48:
                 a[3][w] = blob(48)
-    if rng.random() < (0.7 if d["code"].split("_")[0] in ("Div", "Idiv") else 0.4):
+    if force_pair is not None:
+        apply_value_pairs(rng, case, d, T if has_mem and placement in ("rw", "rwx", "edge") else None, pair=force_pair)
+    elif rng.random() < (0.7 if d["code"].split("_")[0] in ("Div", "Idiv") else 0.4):
         apply_value_pairs(rng, case, d, T if has_mem and placement in ("rw", "rwx", "edge") else None)
     # 32-bit register operands: garbage in the upper halves (a 32-bit write must clear it, a read must ignore it)
     for nm in (d["r0"], d["r1"]):
@@ -401,7 +403,7 @@ def set_reg_view(regs, name, v):
     return False
 
 
-def apply_value_pairs(rng, case, d, T):
+def apply_value_pairs(rng, case, d, T, pair=None):
     regs = case["regs"]
     fam = d["code"].split("_")[0]
     r0, r1 = d["r0"], d["r1"]
@@ -452,7 +454,11 @@ def apply_value_pairs(rng, case, d, T):
         return
     if not w:
         return
-    a, b = value_pairs(rng, w)
+    if pair is not None:
+        # a fixed (pair index, carry-in) from the deterministic sweep: no random draw
+        a, b = sweep_pairs(w)[pair[0] % len(sweep_pairs(w))]
+    else:
+        a, b = value_pairs(rng, w)
     a &= (1 << w) - 1
     b &= (1 << w) - 1
     if d["k0"] == "Register" and d["k1"] == "Register" and r0 != r1:
@@ -468,8 +474,21 @@ def apply_value_pairs(rng, case, d, T):
             for ar in case["areas"]:
                 if ar[0] <= T < ar[0] + ar[1] - 8:
                     ar[3][T] = b.to_bytes(w // 8, "little")
-    if rng.random() < 0.5:
+    if pair is not None:
+        case["flags"] = (case["flags"] & ~1) | (1 if pair[1] else 0)
+    elif rng.random() < 0.5:
         case["flags"] |= 1   # carry in
+
+
+def sweep_pairs(w):
+    """the fixed operand pairs of the carry / overflow sweep for width w"""
+    m = (1 << w) - 1
+    top = 1 << (w - 1)
+    return [(m, 0), (0, m), (m, m), (m, 1), (1, m), (top - 1, top), (top, top - 1), (top, top), (top - 1, 1), (top, 1),
+            (0x5a5a5a5a5a5a5a5a & m, (m - 0x5a5a5a5a5a5a5a5a) & m), (0, 0), (top - 1, top - 1), (top, m),
+            # products on the signed / unsigned overflow boundary of the multiplications
+            (1 << (w // 2), 1 << (w // 2 - 1)), (3, 1 << (w - 2)), (m - 0xffff, 0x8001 if w > 16 else 3),
+            (1 << (w // 2), 1 << (w // 2)), (m, 2), (top, 2), ((1 << (w // 2)) - 1, (1 << (w // 2)) + 1)]
 
 
 def emu_lines(cid, case, extra_ops=()):
@@ -668,6 +687,52 @@ def generate_edge_sweep(axh, seed):
         c, d = have[code]
         for k in (1, 2, 3, 4, 7, 8, 15, 16):
             out.append(make_state(rng, c, d, rip, force_T=AREA_RW + PAGE - k))
+    return out
+
+
+PAIR_FAMILIES = ("Add", "Adc", "Sub", "Cmp", "And", "Xor", "Test", "Imul")
+
+
+def generate_pair_sweep(axh, seed):
+    """for every dispatched two-operand form of ADD / ADC / SUB / CMP / AND / XOR / TEST whose operands are
+    registers or one memory operand: every pair of sweep_pairs() with carry-in 0 and 1 - deterministic, so a
+    change that only shows on one carry / overflow boundary cannot be missed by an unlucky draw"""
+    rng = random.Random(seed ^ 0xca221)
+    table = load_codes()
+    dispatched = set(table["codes"]) - set(table["stubs"])
+    rip = CODE_BASE + 0x100
+    have = {}
+    recs = build_recipes(axh)
+    fam_codes = sorted(k for k in recs if k in dispatched and k.split("_")[0] in PAIR_FAMILIES)
+    for _ in range(6):
+        cands = [gen_candidate(rng, recipe=rng.choice(recs[k])) for k in fam_codes for _ in range(40) if k not in have]
+        if not cands:
+            break
+        decs = decode_bulk(axh, cands, rip)
+        for c, toks in zip(cands, decs):
+            d = dec_dict(toks)
+            if d is None or d["code"] not in dispatched or d["code"].split("_")[0] not in PAIR_FAMILIES:
+                continue
+            kinds = (d["k0"], d["k1"])
+            if kinds not in (("Register", "Register"), ("Memory", "Register"), ("Register", "Memory")) or d["r0"] == d["r1"]:
+                continue
+            if d["base"] in ("RSP", "ESP", "RIP", "EIP") or d["seg"] in ("FS", "GS") or d["base"] == d["index"]:
+                continue
+            def ridx(nm):
+                return REGIDX[nm][0] if nm in REGIDX else (REG8.get(nm) if nm in globals().get("REG8", {}) else None)
+            opregs = set(x for x in (ridx(d["r0"]), ridx(d["r1"])) if x is not None)
+            if "Memory" in kinds and (d["base"] == "None" or ridx(d["base"]) in opregs or ridx(d["index"]) in opregs):
+                continue
+            if "SP" in d["r0"] or "SP" in d["r1"]:
+                continue
+            have.setdefault(d["code"], (c, d))
+    out = []
+    for code in sorted(have):
+        c, d = have[code]
+        w = WIDTH_OF.get(d["r0"]) or WIDTH_OF.get(d["r1"]) or 64
+        for k in range(len(sweep_pairs(w))):
+            for cf in (0, 1):
+                out.append(make_state(rng, c, d, rip, force_T=AREA_RW + 0x200 + 16 * k, force_pair=(k, cf)))
     return out
 
 
